@@ -50,6 +50,7 @@ type POp struct {
 	Snap  int    `json:"snap,omitempty"` // index into live snapshots (mod len), -1 = db
 	Walk  []Move `json:"walk,omitempty"`
 	Hold  bool   `json:"hold,omitempty"` // iterator: keep it open and re-walk it later
+	Rec   bool   `json:"recover,omitempty"` // reopen: settle, Close, then leveldb.Recover instead of Open (every table at level 0)
 }
 
 type Prog struct {
@@ -221,7 +222,9 @@ func GenProg(r *rng.R, o gen.Opts, nops int, w ProgWeights) *Prog {
 			s, l := rng2()
 			p.Ops = append(p.Ops, POp{Op: "compact", Start: s, Limit: l})
 		case pick(w.Reopen):
-			p.Ops = append(p.Ops, POp{Op: "reopen"})
+			// a quarter of the reopens go through Recover: the manifest is rebuilt from the table files, every table
+			// lands at level 0 in file-number order, which is NOT the order of their ages
+			p.Ops = append(p.Ops, POp{Op: "reopen", Rec: !inTx && r.Chance(1, 4)})
 		case pick(w.Settle):
 			p.Ops = append(p.Ops, POp{Op: "settle"})
 		case pick(w.Tx):
@@ -278,6 +281,8 @@ type heldIter struct {
 }
 
 type Runner struct {
+	useRecover bool // the next open() goes through leveldb.Recover
+	nRecover   int  // reopens that went through Recover
 	P     *Prog
 	St    *stor.Stor
 	DB    *leveldb.DB
@@ -425,7 +430,13 @@ func (r *Runner) open() error {
 		r.O = &o
 		r.opens++
 	}
-	db, err := leveldb.Open(r.St, r.O)
+	var db *leveldb.DB
+	var err error
+	if r.useRecover {
+		db, err = leveldb.Recover(r.St, r.O)
+	} else {
+		db, err = leveldb.Open(r.St, r.O)
+	}
 	if err != nil {
 		return err
 	}
@@ -762,6 +773,21 @@ func (r *Runner) Run() {
 			r.settle(at)
 		case "reopen":
 			r.releaseHandles()
+			r.useRecover = false
+			if op.Rec && r.Tr == nil {
+				// Recover reads every table file it finds: only on a settled storage (exactly the live files) is
+				// its result the plain map; otherwise an obsolete table could bring back what a compaction dropped
+				for try := 0; try < 200 && !r.useRecover; try++ {
+					if leveldb.VerifWaitIdle(r.DB) != nil {
+						break
+					}
+					if extra, missing := r.fileDiff(); len(extra) == 0 && len(missing) == 0 {
+						r.useRecover = true
+					} else {
+						sleepMs(5)
+					}
+				}
+			}
 			if err := r.DB.Close(); err != nil {
 				r.fail("close:error", fmt.Sprintf("op %d: Close: %v", at, err), at)
 			}
@@ -772,9 +798,16 @@ func (r *Runner) Run() {
 			if r.Tracer != nil {
 				r.Tracer.reset()
 			}
-			if err := r.open(); err != nil {
-				r.fail("reopen:error", fmt.Sprintf("op %d: reopen: %v", at, err), at)
+			err := r.open()
+			viaRecover := r.useRecover
+			r.useRecover = false
+			if err != nil {
+				r.fail("reopen:error", fmt.Sprintf("op %d: reopen (recover=%v): %v", at, viaRecover, err), at)
 				return
+			}
+			if viaRecover {
+				r.nRecover++
+				r.Stats["reopen-via-recover"]++
 			}
 			r.tableCache = map[string][]leveldb.VerifEntry{}
 			r.fullCompare(at, "after-reopen")
